@@ -8058,6 +8058,11 @@ class Use(SVGElement, Transformable, list):
         SVGElement.render(self, **kwargs)
         Transformable.render(self, **kwargs)
 
+    def __copy__(self):
+        u = Use(self)
+        u.extend(map(copy, self))
+        return u
+
     def select(self, conditional=None):
         """
         Finds all flattened subobjects of this group for which the conditional returns
